@@ -499,6 +499,17 @@ func TestC16_EnvelopeMatrix(t *testing.T) {
 				}
 			}
 		}
+		// recipient sets whose identifiers nearly coincide: key identifiers that
+		// differ in the last bit (sm2-2, sm2-3), the same serial number under
+		// different issuers (sm2-5, rsa-4), consecutive serial numbers under one issuer
+		for _, recips := range [][]string{{"sm2-2", "sm2-3"}, {"sm2-3", "sm2-2"}, {"sm2-5", "rsa-4"}, {"rsa-4", "sm2-5"}, {"sm2-0", "sm2-1", "sm2-2"}, {"rsa-2", "rsa-1", "rsa-0"}} {
+			for _, api := range envAPIs {
+				for _, cn := range []string{"sm4-cbc", "aes128-gcm"} {
+					i++
+					emit(envCase{API: api, Cipher: cn, Recips: recips, Len: 20, Seed: gen.Mix(h.Seed, uint64(i))})
+				}
+			}
+		}
 	}, checkEnvelope)
 }
 
